@@ -258,8 +258,12 @@ class VCGen:
         if want == REAL and t == INT:
             return ToReal(v), REAL
         if want == REAL and t == FP:
-            from z3 import fpToReal
-            return fpToReal(v), REAL
+            from z3 import fpToReal, fpLT, fpGT, FPVal, Float64
+            r_ = fpToReal(v)
+            if st is not None:      # valid facts about fp.to_real that spare the solver the bit-level argument for the common bounds
+                st.pc.append(And(Implies(fpGT(v, FPVal(0.0, Float64())), r_ > 0), Implies(fpLT(v, FPVal(1.0, Float64())), r_ < 1),
+                                 Implies(fpLT(v, FPVal(0.0, Float64())), r_ < 0), Implies(fpGT(v, FPVal(1.0, Float64())), r_ > 1)))
+            return r_, REAL
         if want == FP and t in (INT, REAL):
             return s.to_fp(v, t), FP
         if want == REAL and t == BOOL:
@@ -1788,7 +1792,7 @@ class VCGen:
         if len(n.targets) != 1:
             raise Unsupported('chained assignment')
         cut = s.cur.get('cut_before_assign')
-        if cut and isinstance(n.targets[0], ast.Name) and n.targets[0].id == cut:
+        if cut and isinstance(n.targets[0], ast.Name) and s.cur.get('_alias_rev', {}).get(n.targets[0].id, n.targets[0].id) == cut:
             # the contract covers the function up to this statement (the rest is outside this contract's scope)
             for k, post in enumerate(s.cur.get('ensures_at_cut', [])):
                 s.oblige(st, f'at-cut#{k}', s.spec_eval(post, st, 1), n.lineno, 'post')
@@ -1800,12 +1804,13 @@ class VCGen:
         v, t = s.ev(n.value, st)
         s.assign(n.targets[0], v, t, st, n.lineno)
         if isinstance(n.targets[0], ast.Name):
-            for u in s.cur.get('use_after_assign', {}).get(n.targets[0].id, []):      # lemma instances available from here on
+            key_ = s.cur.get('_alias_rev', {}).get(n.targets[0].id, n.targets[0].id)       # the name the contract knows this local by
+            for u in s.cur.get('use_after_assign', {}).get(key_, []):      # lemma instances available from here on
                 n0_ = len(st.pc)
                 s.use_lemma(st, u)
                 s.cur.setdefault('_kept_hyps', []).extend(st.pc[n0_:])
-            for k_, h in enumerate(s.cur.get('hints_after_assign', {}).get(n.targets[0].id, [])):   # proved here, where the context is small
-                s.hint(st, h, f'hint-assign:{n.targets[0].id}#{k_}', n.lineno)
+            for k_, h in enumerate(s.cur.get('hints_after_assign', {}).get(key_, [])):   # proved here, where the context is small
+                s.hint(st, h, f'hint-assign:{key_}#{k_}', n.lineno)
         return [st]
 
     def st_AugAssign(s, n, st):
@@ -2458,6 +2463,7 @@ class VCGen:
         s.cur = callee_view
         try:
             for al, src in saved.get('alias_for_asserts', {}).items():      # caller locals visible to call_asserts under an alias
+                src = saved.get('_alias', {}).get(src, src)
                 if src in st.env:
                     cal.env[al] = st.env[src]
             for j, r in enumerate(saved.get('call_asserts', {}).get(q.split('.', 1)[1], [])):
@@ -2590,8 +2596,8 @@ class VCGen:
         cur_locals = local_order(fn)
         lock_locals = getattr(s, 'locals_lock', {}).get(qual)
         c['_locals_order'] = cur_locals
-        if lock_locals and cur_locals != lock_locals and len(cur_locals) == len(lock_locals):
-            al = {o: n_ for o, n_ in zip(lock_locals, cur_locals) if o != n_ and o not in cur_locals and n_ not in lock_locals}
+        if lock_locals and lock_locals and isinstance(lock_locals[0], list) and [n_ for n_, _ in cur_locals] != [n_ for n_, _ in lock_locals]:
+            al = infer_aliases(lock_locals, cur_locals)
             c['_alias'] = al
             c['_alias_rev'] = {v: k for k, v in al.items()}
         st = s.init_state(c)
@@ -2709,15 +2715,74 @@ def _patterns_for(k, f):
     return list(found.values())[:6]
 
 
+def _abstract(node):
+    """dump of an expression with local names blanked (so that a consistent renaming does not change it)"""
+    n2 = ast.parse(ast.unparse(node), mode='eval').body if not isinstance(node, ast.expr_context) else node
+
+    class Blank(ast.NodeTransformer):
+        def visit_Name(self, x):
+            return ast.copy_location(ast.Name(id='_', ctx=ast.Load()), x)
+    return ast.dump(Blank().visit(n2))
+
+
 def local_order(fn):
-    """names assigned in the function, in source order of their first assignment (parameters excluded)"""
+    """[[name, signature]] for the names assigned in the function, in source order of their first assignment (parameters
+    excluded); the signature lists how the name is assigned (right-hand sides with names blanked)"""
     params = {a.arg for a in fn.args.args}
-    seen = []
-    stores = [x for x in ast.walk(fn) if isinstance(x, ast.Name) and isinstance(x.ctx, ast.Store)]
-    for x in sorted(stores, key=lambda x: (x.lineno, x.col_offset)):
-        if x.id not in params and x.id not in seen:
-            seen.append(x.id)
-    return seen
+    sig = {}
+    order = []
+
+    def note(name, pos, what):
+        if name in params:
+            return
+        if name not in sig:
+            sig[name] = []
+            order.append((pos, name))
+        sig[name].append(what)
+
+    def targets(t, pos, what):
+        if isinstance(t, ast.Name):
+            note(t.id, pos, what)
+        elif isinstance(t, (ast.Tuple, ast.List)):
+            for i, el in enumerate(t.elts):
+                targets(el, pos, f'{what}[{i}]')
+    for x in ast.walk(fn):
+        pos = (getattr(x, 'lineno', 0), getattr(x, 'col_offset', 0))
+        if isinstance(x, ast.Assign):
+            for t in x.targets:
+                targets(t, pos, 'A:' + _abstract(x.value))
+        elif isinstance(x, ast.AugAssign):
+            targets(x.target, pos, 'G:' + type(x.op).__name__ + _abstract(x.value))
+        elif isinstance(x, ast.For):
+            targets(x.target, pos, 'F:' + _abstract(x.iter))
+        elif isinstance(x, ast.comprehension):
+            targets(x.target, pos, 'C:' + _abstract(x.iter))
+        elif isinstance(x, ast.With):
+            for it in x.items:
+                if it.optional_vars is not None:
+                    targets(it.optional_vars, pos, 'W')
+        elif isinstance(x, ast.ExceptHandler) and x.name:
+            note(x.name, pos, 'E')
+    return [[n_, sorted(sig[n_])] for _, n_ in sorted(order)]
+
+
+def infer_aliases(lock_locals, cur_locals):
+    """old name -> new name for locals that were renamed: same assignment signature, unambiguous (ties broken by order)"""
+    old_names = [n for n, _ in lock_locals]
+    new_names = [n for n, _ in cur_locals]
+    gone = [(n, sg) for n, sg in lock_locals if n not in new_names]
+    came = [(n, sg) for n, sg in cur_locals if n not in old_names]
+    al = {}
+    for n, sg in gone:
+        cands = [m for m, sg2 in came if sg2 == sg and m not in al.values()]
+        if cands:
+            al[n] = cands[0]
+    if len(gone) == len(came):          # what is left over is matched by position
+        rest_old = [n for n, _ in gone if n not in al]
+        rest_new = [m for m, _ in came if m not in al.values()]
+        for n, m in zip(rest_old, rest_new):
+            al[n] = m
+    return al
 
 
 def _is_nonlinear_product(v):
